@@ -10,7 +10,7 @@ import (
 
 func init() {
 	register("C02", propMeta{
-		Explanation: "E-OWN + E-LOCK + E-PROV + E-GUARD on the broker's rendezvous. O-1 channel privacy: every store to Snowflake.{offerChannel,answerChannel,id} and ProxyPoll.{offerChannel,id} targets a not-yet-published object of the storing function and channel fields only ever receive a fresh MakeChan. O-2 unique holder: the heaps, the id map and Snowflake.index are touched only under snowflakeLock (must-lockset, heap callbacks included) and the heap slices only inside the heap.Interface methods. O-3 same match end to end: in ClientOffers the snowflake returned by matchSnowflake is the base of the channel the offer is sent on, of the channel the answer is received from and of the id deregistered; the answer returned is the value received; the offer carries the request's SDP and the validated fingerprint. In Broker the per-poll goroutine forwards from the snowflake registered for *that* poll (request passed as a parameter, snowflake a per-iteration value built from request.id). ProxyAnswers sends the decoded answer on the answerChannel of the map entry looked up with the decoded id. ProxyPolls returns the offer received for the decoded session id and derives the relay URL from that offer's fingerprint. O-4: registration key = own id. O-5: one matching path for POST/legacy/AMP. O-6: matching is reachable only through the err == nil edges of hex decoding, fingerprint construction and bridge lookup. With private channels and a unique holder the only values that can travel between a client handler and a proxy handler are that client's offer and that proxy's answer; each obligation is also necessary (break it and some history cross-wires). Added after the second seeding round: O-6c every JSON record decoded inside a loop goes into a record created (or wholly overwritten) in that iteration; O-7/C14 the request body is read only through MaxBytesReader (C14's obligation, evaluated here for the broker handlers). Added after the third seeding round: O-9 (no package-level scratch state on the match path) covers method calls on package-level objects, for example a shared response buffer whose bytes are handed to the poll; O-6b GetBridgeInfo succeeds only with the entry looked up for its own parameter. Added after the fourth seeding round: O-1b AddSnowflake returns only the Snowflake it allocated in this call; O-3 a request reaches matchSnowflake at most once per execution (no second chance with the same offer); O-10/C04 the deregistration obligations of C04 for the poll goroutine's timeout branch. Added after the fifth seeding round: O-3e ClientPollResponse.Answer is the empty string or the value received from the matched snowflake's answerChannel; O-3d every alternative of the fingerprint whose relay URL is looked up is the received offer's; O-6b BrokerContext.GetBridgeInfo succeeds only if the bridge list's lookup did; one request reaches ClientOffers once (several call sites on alternative paths are allowed).",
+		Explanation: "E-OWN + E-LOCK + E-PROV + E-GUARD on the broker's rendezvous. O-1 channel privacy: every store to Snowflake.{offerChannel,answerChannel,id} and ProxyPoll.{offerChannel,id} targets a not-yet-published object of the storing function and channel fields only ever receive a fresh MakeChan. O-2 unique holder: the heaps, the id map and Snowflake.index are touched only under snowflakeLock (must-lockset, heap callbacks included) and the heap slices only inside the heap.Interface methods. O-3 same match end to end: in ClientOffers the snowflake returned by matchSnowflake is the base of the channel the offer is sent on, of the channel the answer is received from and of the id deregistered; the answer returned is the value received; the offer carries the request's SDP and the validated fingerprint. In Broker the per-poll goroutine forwards from the snowflake registered for *that* poll (request passed as a parameter, snowflake a per-iteration value built from request.id). ProxyAnswers sends the decoded answer on the answerChannel of the map entry looked up with the decoded id. ProxyPolls returns the offer received for the decoded session id and derives the relay URL from that offer's fingerprint. O-4: registration key = own id. O-5: one matching path for POST/legacy/AMP. O-6: matching is reachable only through the err == nil edges of hex decoding, fingerprint construction and bridge lookup. With private channels and a unique holder the only values that can travel between a client handler and a proxy handler are that client's offer and that proxy's answer; each obligation is also necessary (break it and some history cross-wires). Added after the second seeding round: O-6c every JSON record decoded inside a loop goes into a record created (or wholly overwritten) in that iteration; O-7/C14 the request body is read only through MaxBytesReader (C14's obligation, evaluated here for the broker handlers). Added after the third seeding round: O-9 (no package-level scratch state on the match path) covers method calls on package-level objects, for example a shared response buffer whose bytes are handed to the poll; O-6b GetBridgeInfo succeeds only with the entry looked up for its own parameter. Added after the fourth seeding round: O-1b AddSnowflake returns only the Snowflake it allocated in this call; O-3 a request reaches matchSnowflake at most once per execution (no second chance with the same offer); O-10/C04 the deregistration obligations of C04 for the poll goroutine's timeout branch. Added after the fifth seeding round: O-3e ClientPollResponse.Answer is the empty string or the value received from the matched snowflake's answerChannel; O-3d every alternative of the fingerprint whose relay URL is looked up is the received offer's; O-6b BrokerContext.GetBridgeInfo succeeds only if the bridge list's lookup did; one request reaches ClientOffers once (several call sites on alternative paths are allowed). Added after the sixth seeding round and the mutation audit: O-9 the format argument of every printf-style call in the broker is a constant (an answer written with Fprintf(w, answer) has its '%' sequences rewritten).",
 		NotDecided:  "byte-for-byte fidelity through JSON (C12), uniqueness of proxy-chosen session ids (outside the quantifier), liveness (C04), container/heap correctness.",
 		Assumptions: []string{"Go channel semantics", "lock identity is (type, field)", "container/heap calls only the heap.Interface methods of the value it is given"},
 	}, runC02)
@@ -23,6 +23,8 @@ func runC02(c *Ctx) {
 		c.analysedFn(p.FnName(fn))
 	}
 	all := p.FnsIn()
+	// offers, answers and error texts are passed on as they are, never interpreted as a format
+	c.checkNoDataAsFormat("O-9 relayed text is never a format string", broker)
 	// the poll and the offer are read whole or refused (C14's body-cap obligation): a silently truncated offer is matched and delivered to the proxy as if it were the client's
 	c.prefix = "O-7/C14:"
 	c.checkBodyCap(broker)
